@@ -30,7 +30,7 @@ INVARIANTS = ["TypeOKV", "VerdictAgrees", "ReasonIsSound", "FaultEffects", "Base
 # still a typed invalid-FlowIR error.  KeyError / ValueError / TypeError / AttributeError / RecursionError ... are leaks.
 # a primitive load (no replication) is only judged for faults it can see: without the replication pass nothing sorts the
 # graph, so a cycle is only found later by validateExperiment
-PRIMITIVE_KINDS = ("none", "var", "drop")
+PRIMITIVE_KINDS = ("none", "var", "drop", "rename", "restage")
 ALLOWED = {"package": ("ExperimentInvalidConfigurationError",),
            "primitive": ("ExperimentInvalidConfigurationError", "FlowIRException"),
            "graph": ("ExperimentInvalidConfigurationError", "FlowIRException")}
@@ -51,11 +51,11 @@ for _d, _sites in (("int", ALL_TSITES[:9]), ("float", ALL_TSITES[9:12]), ("str",
 
 def V(names=("p", "q", "r"), stages=(0, 1), reps=("none", "n2", "vs"), aggs=(True, False), spell=("rel", "abs"), paths=("",),
       methods=("ref",), styles=("same",), comps=3, refs=2, faults=ALL_FAULTS, package=8, tsites=FEW_TSITES, tclasses=FEW_TCLASSES,
-      sv0=(0,), sv1=(2,), mst=(0,), primitive=0):
+      sv0=(0,), sv1=(2,), mst=(0,), primitive=0, fixed=True):
     """package / primitive: every k-th mutant is ALSO loaded as a package directory / with graphFromFlowIR(primitive=True)"""
     return dict(names=names, stages=stages, reps=reps, aggs=aggs, spell=spell, paths=paths, methods=methods, styles=styles,
                 comps=comps, refs=refs, faults=faults, package=package, tsites=tsites, tclasses=tclasses,
-                sv0=sv0, sv1=sv1, mst=mst, primitive=primitive)
+                sv0=sv0, sv1=sv1, mst=mst, primitive=primitive, fixed=fixed)
 
 
 SLICES = {
@@ -65,7 +65,12 @@ SLICES = {
         # structural faults on three components (chains, diamonds, aggregators), one stage
         "three": V(stages=(0,), reps=("none", "n2"), spell=("rel",), faults=["none", "drop", "rename", "cycle", "dup", "var"], package=16),
         # structural faults across two stages
-        "stages": V(reps=("none",), aggs=(False,), spell=("abs",), faults=["drop", "rename", "restage", "cycle", "dup"], package=4),
+        "stages": V(reps=("none",), aggs=(False,), spell=("abs",), faults=["drop", "rename", "restage", "cycle", "dup"], package=4,
+                    primitive=1),
+        # dangling references whose NAME still exists in another stage: the same name in both stages (names are not fixed here);
+        # drop stage1.a while stage0.a exists, stage0.a:ref -> stage1.a:ref; judged on the primitive load too
+        "samename": V(names=("a", "c"), fixed=False, reps=("none", "n2"), aggs=(False,), spell=("rel", "abs"), refs=2,
+                      faults=["none", "drop", "rename", "restage"], package=8, primitive=1),
         # where a variable is defined: `rs` (replica count) and `msg` (arguments) in the global scope and/or in the scope of the
         # own / the OTHER stage; removing the global definition leaves it undefined unless the component's OWN stage defines it.
         # Loaded with primitive=False and primitive=True.
@@ -82,6 +87,8 @@ SLICES = {
         "options": V(stages=(0,), reps=("none", "vg"), spell=("rel",), refs=1, faults=["key", "type"], package=16),
         "varscope": V(reps=("none", "vs"), aggs=(False,), spell=("abs",), refs=1, faults=["none", "var", "drop"],
                       sv0=(0, 2), sv1=(0, 2), mst=(0, 1, 2), package=8, primitive=2),
+        "samename": V(names=("a", "c"), fixed=False, reps=("none", "n2"), aggs=(True, False), spell=("rel", "abs"), refs=2,
+                      faults=["none", "drop", "rename", "restage", "dup"], package=16, primitive=1),
         "types": V(names=("p", "q"), reps=("none", "n2", "vg"), spell=("rel", "abs"), comps=2, refs=1, faults=["type"],
                    tsites=ALL_TSITES, tclasses=ALL_TCLASSES, package=4),
         "four": V(names=("p", "q", "r", "s"), stages=(0,), reps=("none", "n2"), aggs=(False,), spell=("rel",), comps=4,
@@ -96,12 +103,12 @@ MODEL = {
 
 def write_cfg(path, sl, emit, invariants):
     body = ("CONSTANTS\n  Names = %s\n  Stages = %s\n  RepChoices = %s\n  AggChoices = %s\n  Spellings = %s\n  Paths = %s\n"
-            "  Methods = %s\n  ArgStyles = %s\n  DocOrders = {\"fwd\"}\n  MaxComps = %d\n  MaxRefs = %d\n  FixedNames = TRUE\n"
+            "  Methods = %s\n  ArgStyles = %s\n  DocOrders = {\"fwd\"}\n  MaxComps = %d\n  MaxRefs = %d\n  FixedNames = %s\n"
             "  Emit = FALSE\n  PrivChoices = {0}\n  AggVarChoices = {FALSE}\n  StageVals0 = %s\n  StageVals1 = %s\n  MaxSame = 1\n"
             "  Platforms = {0}\n  PlatGlobalVals = {0}\n  PlatStageVals0 = {0}\n  PlatStageVals1 = {0}\n  MsgStageVals = %s\n"
             "  FaultKinds = %s\n  EmitV = %s\n  TypeSitesC = %s\n  TypeClassesC = %s\nINIT InitV\nNEXT NextV\n%sCHECK_DEADLOCK FALSE\n" % (
                 _set(sl["names"]), _set(sl["stages"]), _set(sl["reps"]), _set(sl["aggs"]), _set(sl["spell"]), _set(sl["paths"]),
-                _set(sl["methods"]), _set(sl["styles"]), sl["comps"], sl["refs"], _set(sl["sv0"]), _set(sl["sv1"]), _set(sl["mst"]),
+                _set(sl["methods"]), _set(sl["styles"]), sl["comps"], sl["refs"], "TRUE" if sl["fixed"] else "FALSE", _set(sl["sv0"]), _set(sl["sv1"]), _set(sl["mst"]),
                 _set(sl["faults"]),
                 "TRUE" if emit else "FALSE", _set(sl["tsites"]), _set(sl["tclasses"]), "".join("INVARIANT %s\n" % i for i in invariants)))
     with open(path, "w") as f:
